@@ -170,7 +170,7 @@ package router
 //@   requires m != nil && wfMsg(m) && smallMsg(m)
 //@   modifies m.Additionals, obj(m.Additionals)
 //@   ensures wfMsg(m)
-//@   ensures err == nil ==> b != nil && fresh(b) && len(b) >= 12
+//@   ensures err == nil ==> b != nil && fresh(b) && rootObj(b) && len(b) >= 12
 //@   ensures err != nil ==> b == nil
 //@   ensures [C09:udp-limit] err == nil && size > 0 && old(optSmall(m)) ==> len(b) <= (size < 512 ? 512 : (size > 65535 ? 65535 : size))
 
@@ -179,6 +179,21 @@ package router
 //@   requires m != nil && wfMsg(m) && smallMsg(m)
 //@   modifies m.Additionals, obj(m.Additionals)
 //@   ensures wfMsg(m)
-//@   ensures err == nil ==> b != nil && fresh(b) && len(b) >= 14
+//@   ensures err == nil ==> b != nil && fresh(b) && rootObj(b) && len(b) >= 14
 //@   ensures err != nil ==> b == nil
 //@   ensures [C13:frame-prefix] err == nil && old(optSmall(m)) ==> len(b) - 2 <= 65535 && BE16(b, 0) == uint16(len(b) - 2)
+
+//@ func mustHaveRespB(query *dnsmsg.Msg, resp *dnsmsg.Msg, errRcode dnsmsg.RCode, tcp bool, size int) (b pool.Buffer)
+//@   props C03 C09 C13 C01
+//@   requires query != nil && wfMsg(query)
+//@   requires resp == nil || (wfMsg(resp) && smallMsg(resp))
+//@   modifies *
+//@   ensures [C03:always-a-response] b != nil && len(b) >= (tcp ? 14 : 12)
+//@   ensures [C13:framed] tcp && (resp == nil || old(optSmall(resp))) ==> BE16(b, 0) == uint16(len(b) - 2) && len(b) - 2 <= 65535
+
+//@ func (r *router) handleServerReq(m *dnsmsg.Msg, rc *RequestContext)
+//@   props C03
+//@   requires r != nil && m != nil && rc != nil && wfMsg(m) && r.cache != nil && forall(k, 0, len(r.rules), r.rules[k] != nil)
+//@   requires r.queryCacheHitTotal != nil && r.logger != nil && r.queryTotal != nil
+//@   modifies *
+//@   ensures [C03:always-a-response] rc.Response.Msg != nil
